@@ -150,6 +150,33 @@ def subst_env(base, args, parse_arg):
     return Env(var=var, comp=base.comp, count=count, cat=base.cat)
 
 
+def fallback_witnesses():
+    """F11 / F20: a reference whose target is null / absent in a locale that inherits from a non-default locale"""
+    out = []
+    for pres in ("null", "absent"):
+        files = {(None, "en"): proj.O([("a", "A-en"), ("b", "$t(a)!")]),
+                 (None, "fr"): proj.O([("a", "A-fr"), ("b", "$t(a)!")]),
+                 (None, "fr-CA"): proj.O(([("a", None)] if pres == "null" else []) + [("b", "$t(a)!")])}
+        out.append({"default": "en", "locales": ["en", "fr", "fr-CA"], "all_locales": ["en", "fr", "fr-CA"], "namespaces": None,
+                    "inherits": {"fr-CA": "fr"}, "files": files, "extra_cfg": False, "meta": {}, "witness": pres})
+    return out
+
+
+def witness_oracle(ctx, p, o, i):
+    """the accessor of `a` in fr-CA renders fr's text (C03); `$t(a)` in fr-CA must render the same"""
+    ctx.seen(project_text(p), nontrivial=True)
+    exp = "A-fr!"
+    if "ok" not in o["ci"]:
+        report_violation(ctx, "foreign:absent-target-in-inheriting-locale-rejected" if p["witness"] == "absent" else "foreign:null-target-rejected",
+                         {"case": project_text(p), "expected_by_spec": exp, "implementation": o["impl"]["result"]})
+        return
+    ns_out = o["impl"]["result"]["ok"]["nss"][0]
+    got = pv_eval(Env(), locale_value_at(ns_out, "fr-CA", ("b",)))
+    if got != exp:
+        report_violation(ctx, "foreign:null-target-ignores-inherits", {"case": project_text(p), "locale": "fr-CA", "key": "b",
+                                                                      "expected_by_spec": exp, "implementation": got})
+
+
 def make_oracle(binp):
     cache = {}
 
@@ -245,6 +272,7 @@ def run(ctx):
     proj.literal_operands = lambda p: sorted(set(orig(p)) | {"u:3", "u:0", "u:1", "u:2", "u:5", "u:21"})
     try:
         generic_pipeline_check(ctx, [("I18nVerif.Theorems.C06", "C06_")], projects, make_oracle(binp), "C06")
+        generic_pipeline_check(ctx, [], fallback_witnesses(), witness_oracle, "C06-fallback-witnesses")
         more = [proj.gen_project(rng, {"fk": True}) for _ in range(ctx.budget(300, 6000))]
         generic_pipeline_check(ctx, [], more, lambda c, p, o, i: None, "C06-generated")
     finally:
